@@ -1,4 +1,2 @@
-(* C16/Proofs.v -- lemmas about the model of resize_array. *)
-From Coq Require Import ZArith Reals Lia Lra List Bool.
-From Verif Require Import Base.Num Base.Vec Base.VecR C16.Syntax Gen.Padding C16.Model.
-Import ListNotations.
+(* C16/Proofs.v -- lemmas about the model of resize_array (collects the P*.v files). *)
+From Verif Require Export C16.PLists C16.PPatterns C16.PGather.
